@@ -484,7 +484,15 @@ fn string_number(vm: &mut Vm) -> Result<VCell, Error> {
     let argc = pop_argc(vm, 1, Some(2), "string->number")?;
 
     let radix = match argc {
-        2 => pop_usize(vm)? as u32,
+        2 => match pop_usize(vm)? {
+            radix @ 2..=36 => radix as u32,
+            radix => {
+                return Err(InvalidSyntax(format!(
+                    "string->number: {} is not a valid radix",
+                    radix
+                )));
+            }
+        },
         _ => 10_u32,
     };
     let s = pop_string(vm, "string->number")?;
